@@ -114,6 +114,15 @@ pub fn rle_32_decompress(input: &[u8], width: u32, height: u32, output: &mut [u8
 		return Err(Error::RdpError(RdpError::new(RdpErrorKind::UnexpectedType, "Bad header")))
 	}
 
+	if output.len() < width as usize * height as usize * 4 {
+		return Err(Error::RdpError(RdpError::new(RdpErrorKind::InvalidSize, "Output buffer too small")))
+	}
+
+	// nothing to decode for an empty bitmap
+	if width == 0 || height == 0 {
+		return Ok(())
+	}
+
 	process_plane(&mut input_cursor, width, height, &mut output[3..])?;
 	process_plane(&mut input_cursor, width, height, &mut output[2..])?;
 	process_plane(&mut input_cursor, width, height, &mut output[1..])?;
